@@ -1,4 +1,6 @@
 
+val negb : bool -> bool
+
 type nat =
 | O
 | S of nat
@@ -26,6 +28,16 @@ type z =
 | Z0
 | Zpos of positive
 | Zneg of positive
+
+module Pos :
+ sig
+  val eqb : positive -> positive -> bool
+ end
+
+module Z :
+ sig
+  val eqb : z -> z -> bool
+ end
 
 val map : ('a1 -> 'a2) -> 'a1 list -> 'a2 list
 
@@ -110,3 +122,25 @@ val keep : (val0 -> bool) -> event -> bool
 
 val obs :
   (val0 -> bool) -> (event list * val0 outcome) -> event list * val0 outcome
+
+val negate_op : z -> z option
+
+type nexpr =
+| NPlain of fnode list
+| NNot of fnode list
+
+val handle_not : fnode list -> nexpr
+
+val eval_nexpr :
+  (z -> val0 -> val0 -> (val0, exn) sum) -> (val0 -> (bool, exn) sum) ->
+  (bool -> val0) -> nexpr -> event list * val0 outcome
+
+val run_not :
+  (z -> val0 -> val0 -> (val0, exn) sum) -> (val0 -> (bool, exn) sum) ->
+  (bool -> val0) -> (z -> val0 -> val0 -> bool option) -> bool -> chain ->
+  event list * val0 outcome
+
+val ref_not :
+  (z -> val0 -> val0 -> (val0, exn) sum) -> (val0 -> (bool, exn) sum) ->
+  (bool -> val0) -> (z -> val0 -> val0 -> bool option) -> bool -> chain ->
+  event list * val0 outcome
